@@ -142,3 +142,12 @@ chk("C10", "property-based testing of generated step plans with a log-wide invar
     "disabled targets are replaced by other functions / values / weights yields a bit-identical knob trajectory and penalties.",
     "trusted: CPython 3.12, numpy, Hypothesis. Tolerances: limits exact (4 ulp for weighted knobs), max_step + 2 ulp (8 ulp weighted). "
     "Bounded search (n <= 4, m <= 5, <= 16 Jacobian steps per case).", "DESIGN.md 4/C10")
+
+chk("C15", "stateful script testing of one optimizer object with an independent re-evaluation of every logged row",
+    "Generated scripts of step / solve (incl. failing) / reload(row | tag) / tag / enable / disable / clear_log calls on one Optimize over a "
+    "generated deterministic problem: after each step(take_best=True) that returns, the harness' evaluation is within all active "
+    "tolerances or the container holds a minimum-penalty row of that call and the independently computed end penalty does not exceed the "
+    "start penalty; finally EVERY row of the log is reloaded: knobs (bit-exact / 4 ulp) and active flags must be the row's, and the "
+    "harness' own (f - target) * weight norm under the row's target mask must reproduce the logged penalty (rtol 1e-12) and target values.",
+    "trusted: CPython 3.12, numpy, Hypothesis; the harness' numpy user functions. No action faults (outside this property's quantifier). "
+    "Bounded search (<= 10 calls, n <= 4, m <= 5).", "DESIGN.md 4/C15")
